@@ -150,13 +150,13 @@ def w5(run):
     `input.find("# Legend:")` and hands everything from there to the parser, keeping `input[..loc]` as the drawing exactly
     when the parser accepts (same decision as C16.L2, evaluated here under C17: a header test of its own - "the marker must
     stand alone on its line" with a home-made notion of blank - is reported)."""
-    from .c16 import l2_paths, l2_shape
+    from .c16 import l2_combinator, l2_paths, l2_shape
     prog = run.prog
     cf = prog.method("from", r"cell_buffer::CellBuffer$", r"From<&str>")
     if not cf:
         run.missing("C17.W5", "From<&str> for CellBuffer")
         return
-    l2_paths(run, cf, "C17.W5") or l2_shape(run, cf, "C17.W5")
+    l2_combinator(run, cf, "C17.W5") or l2_paths(run, cf, "C17.W5") or l2_shape(run, cf, "C17.W5")
 
 
 def w4(run, maxlen):
